@@ -83,6 +83,232 @@ def read(srcdir, name):
         raise Missing(name)
     return lex_strip(open(p, encoding='utf-8').read())
 
+
+# ---------------------------------------------------------------- themes.rs: templates (C20 / C06)
+def fmt_segments(fs, what='format string'):
+    """Rust format string -> [('L', text) | ('H', hole name)]; positional {} holes are numbered 0, 1, .."""
+    segs = []; lit = ''; i = 0; pos = 0
+    while i < len(fs):
+        c = fs[i]
+        if fs.startswith('{{', i):
+            lit += '{'; i += 2
+        elif fs.startswith('}}', i):
+            lit += '}'; i += 2
+        elif c == '{':
+            j = fs.index('}', i)
+            name = fs[i + 1:j]
+            if ':' in name:
+                raise Missing(what + ': format spec in hole ' + name)
+            if name == '':
+                name = str(pos); pos += 1
+            if lit:
+                segs.append(('L', lit)); lit = ''
+            segs.append(('H', name)); i = j + 1
+        elif c == '}':
+            raise Missing(what + ': stray }')
+        else:
+            lit += c; i += 1
+    if lit:
+        segs.append(('L', lit))
+    return segs
+
+def cseg(segs):
+    return '[' + '; '.join(('Lit %s' if k == 'L' else 'Hole %s') % cq(v) for k, v in segs) + ']'
+
+RAWSTR = r'r#"(.*?)"#'
+
+def theme_tables(srcdir):
+    """every table-shaped part of themes.rs that the theme model (Model/Themes.v) instantiates.
+    Returns a dict (used by the python oracles as well); theme_tables_coq renders it."""
+    th = read(srcdir, 'themes.rs')
+    T = {}
+    # --- append_common_styles
+    cs = body_after(th, r'fn append_common_styles', what='append_common_styles')
+    m = re.search(r'let all_elements = if tb\.local_style_id\.is_some\(\)\s*\{\s*' + STR + r'\s*\}\s*else\s*\{\s*' + STR + r'\s*\}', cs)
+    need(m, 'append_common_styles all_elements')
+    T['all_elements'] = (unesc(m.group(1)), unesc(m.group(2)))
+    arr = body_after(cs, r'for s in', open_ch='[', close_ch=']', what='append_common_styles rule list')
+    T['common'] = [fmt_segments(unesc(x), 'common style') for x in re.findall(r'format!\(\s*' + STR + r'\s*\)', arr)]
+    need(len(T['common']) >= 1, 'append_common_styles rules')
+    # --- append_colour_styles: one block per `for colour in COLOUR_LIST`
+    col = body_after(th, r'fn append_colour_styles', what='append_colour_styles')
+    blocks = []
+    for part in re.split(r'for colour in COLOUR_LIST', col)[1:]:
+        blk = body_after(part, r'', what='colour loop body')
+        m = re.search(r'tb\.has_class\(&format!\(' + STR + r'\)\)', blk)
+        need(m, 'colour block class template')
+        cls = fmt_segments(unesc(m.group(1)), 'colour class')
+        guard = None; gspan = (0, 0)
+        g = re.search(r'if \*colour != ' + STR + r'\s*\{', blk)
+        if g:
+            gb = body_after(blk[g.start():], r'if \*colour != ' + STR)
+            gspan = (g.start(), g.start() + blk[g.start():].index(gb) + len(gb)); guard = unesc(g.group(1))
+        styles = []
+        for sm in re.finditer(r'tb\.add_style\(&format!\(\s*' + STR + r'\s*\)\)', blk):
+            styles.append((guard if gspan[0] <= sm.start() < gspan[1] else None, fmt_segments(unesc(sm.group(1)), 'colour style')))
+        need(styles, 'colour block styles')
+        tf = ('', ''); tsk = ('', '')
+        m2 = re.search(r'let \(text_fill, text_stroke\) = if DARK_COLOURS\.contains\(colour\)\s*\{\s*\(' + STR + r',\s*' + STR + r'\)\s*\}\s*else\s*\{\s*\(' + STR + r',\s*' + STR + r'\)', blk)
+        m1 = re.search(r'let text_stroke = if DARK_COLOURS\.contains\(colour\)\s*\{\s*' + STR + r'\s*\}\s*else\s*\{\s*' + STR + r'\s*\}', blk)
+        if m2:
+            tf = (m2.group(1), m2.group(3)); tsk = (m2.group(2), m2.group(4))
+        elif m1:
+            tsk = (m1.group(1), m1.group(2))
+        holes = set(v for _, st in styles for k, v in st if k == 'H') | set(v for k, v in cls if k == 'H')
+        need(holes <= {'colour', 'text_fill', 'text_stroke'}, 'colour block holes %s' % sorted(holes))
+        need(('text_fill' not in holes or m2) and ('text_stroke' not in holes or m2 or m1), 'colour block dark/light choice')
+        blocks.append({'class': cls, 'styles': styles, 'text_fill': tf, 'text_stroke': tsk})
+    need(len(blocks) >= 1, 'append_colour_styles loops')
+    T['colour_blocks'] = blocks
+    # --- stroke widths / text sizes / outline widths: templates
+    sw = body_after(th, r'fn append_stroke_width_styles', what='append_stroke_width_styles')
+    m = re.search(r'tb\.add_style\(&format!\(\s*' + STR, sw); need(m, 'stroke width template')
+    T['stroke_width_tmpl'] = fmt_segments(unesc(m.group(1)), 'stroke width template')
+    ts = body_after(th, r'fn append_text_styles', what='append_text_styles')
+    m = re.search(r'if !tb\.has_element\(' + STR + r'\)\s*\{\s*return;', ts)
+    T['text_gate'] = unesc(m.group(1)) if m else ''
+    tmpls = re.findall(r'tb\.add_style\(&format!\(\s*' + STR, ts)
+    need(len(tmpls) == 2, 'text size / outline templates')
+    T['text_size_tmpl'] = fmt_segments(unesc(tmpls[0]), 'text size template')
+    T['text_ol_tmpl'] = fmt_segments(unesc(tmpls[1]), 'text outline template')
+    # --- arrows
+    ar = body_after(th, r'fn append_arrow_styles', what='append_arrow_styles')
+    T['arrows'] = [(unesc(a), unesc(b)) for a, b in re.findall(r'tb\.has_class\(' + STR + r'\)\s*\{\s*tb\.add_style\(\s*' + STR + r',?\s*\);\s*has_arrow = true;', ar)]
+    need(len(T['arrows']) >= 1, 'arrow rules')
+    m = re.search(r'if has_arrow\s*\{', ar); need(m, 'arrow marker block')
+    hb = body_after(ar[m.start():], r'if has_arrow')
+    m1 = re.search(r'tb\.add_style\(' + STR + r'\)', hb); m2 = re.search(r'tb\.add_defs\(\s*' + RAWSTR, hb, re.S)
+    need(m1 and m2, 'arrow marker style / def')
+    T['arrow_extra_style'] = unesc(m1.group(1)); T['arrow_def'] = m2.group(1)
+    # --- dash / flow
+    dsh = body_after(th, r'fn append_dash_styles', what='append_dash_styles')
+    m = re.search(r'tb\.add_style\(&format!\(' + STR, dsh); need(m, 'flow template')
+    T['flow_tmpl'] = fmt_segments(unesc(m.group(1)), 'flow template')
+    m = re.search(r'if has_flow\s*\{\s*tb\.add_style\(' + STR, dsh); need(m, 'flow keyframes rule')
+    T['flow_keyframes'] = unesc(m.group(1))
+    # --- patterns
+    pd = body_after(th, r'fn pattern_defs', what='pattern_defs')
+    m = re.search(r'format!\(' + STR + r'\)\s*\}\s*else', pd); need(m, 'pattern rotate template')
+    T['pattern_rotate_tmpl'] = fmt_segments(unesc(m.group(1)), 'rotate')
+    m = re.search(r'class\.trim_start_matches\(' + STR + r'\)', pd); need(m, 'pattern id prefix')
+    T['pattern_id_strip'] = unesc(m.group(1))
+    m = re.search(r'tb\.add_style\(&format!\(' + STR, pd); need(m, 'pattern style template')
+    T['pattern_style_tmpl'] = fmt_segments(unesc(m.group(1)), 'pattern style')
+    parts = []
+    for mm in re.finditer(r'if let ((?:PatternType::\w+\s*\|?\s*)+)= direction\s*\{', pd):
+        blk = body_after(pd[mm.start():], r'= direction')
+        t = re.search(RAWSTR, blk, re.S); need(t, 'pattern line template')
+        parts.append((re.findall(r'PatternType::(\w+)', mm.group(1)), fmt_segments(t.group(1), 'pattern part')))
+    need(len(parts) >= 1, 'pattern parts')
+    T['pattern_parts'] = parts
+    m = re.search(r'tb\.add_defs\(&format!\(\s*' + RAWSTR, pd, re.S); need(m, 'pattern def template')
+    T['pattern_def_tmpl'] = fmt_segments(m.group(1), 'pattern def')
+    ptn = body_after(th, r'fn append_pattern_styles', what='append_pattern_styles')
+    m = re.search(r'let spec_class = format!\(' + STR + r',\s*ptn_class\)', ptn); need(m, 'pattern spec_class')
+    T['pattern_spec_tmpl'] = fmt_segments(unesc(m.group(1)), 'pattern spec class')
+    m = re.search(r'pattern_defs\(tb, t_stroke, ptn_class, (\d+),', ptn); need(m, 'pattern base spacing')
+    T['pattern_base_spacing'] = int(m.group(1))
+    # --- shadows + build
+    bd = body_after(th, r'trait Theme', what='trait Theme')
+    bld = body_after(bd, r'fn build\(&self, tb: &mut ThemeBuilder\)', what='Theme::build')
+    sh = []
+    for cls, fn in re.findall(r'\(' + STR + r',\s*&(\w+) as &Tfn\)', bld):
+        fb = body_after(th, r'fn %s\(' % fn, what='shadow fn ' + fn)
+        a = re.search(r'tb\.add_style\(' + STR + r'\)', fb); d = re.search(r'tb\.add_defs\(\s*' + RAWSTR, fb, re.S)
+        need(a and d, 'shadow style/def in ' + fn)
+        sh.append((unesc(cls), unesc(a.group(1)), d.group(1)))
+    need(len(sh) >= 1, 'shadow table')
+    T['shadows'] = sh
+    m = re.search(r'let mut outer_svg = String::from\(' + STR + r'\)', bld); need(m, 'build outer_svg')
+    T['outer_svg'] = unesc(m.group(1))
+    m = re.search(r'outer_svg = format!\(' + STR, bld); need(m, 'build outer_svg local')
+    T['outer_svg_local_tmpl'] = fmt_segments(unesc(m.group(1)), 'outer svg local')
+    m = re.search(r'if tb\.background != ' + STR, bld); need(m, 'build background sentinel')
+    T['background_sentinel'] = unesc(m.group(1))
+    bgs = re.findall(r'tb\.add_style\(&format!\(\s*' + STR + r',\s*outer_svg,', bld)
+    need(len(bgs) == 2 and bgs[0] == bgs[1], 'build background templates')
+    T['background_tmpl'] = fmt_segments(unesc(bgs[0]), 'background')
+    m = re.search(r'tb\.add_style\(&format!\(' + STR + r',\s*id\)\)', bld); need(m, 'build nested open')
+    T['nested_open_tmpl'] = fmt_segments(unesc(m.group(1)), 'nested open')
+    m = re.search(r'if tb\.local_style_id\.is_some\(\)\s*\{\s*tb\.add_style\(' + STR + r'\)', bld); need(m, 'build nested close')
+    T['nested_close'] = unesc(m.group(1))
+    m = re.search(r'if tb\.has_class\(' + STR + r'\)\s*\{\s*tb\.add_style\(' + STR + r'\);', bld); need(m, 'build surround rule')
+    T['early_rules'] = [(unesc(m.group(1)), unesc(m.group(2)))]
+    T['text_element_gate'] = ''
+    m = re.search(r'if tb\.elements\.contains\(' + STR + r'\)\s*\{\s*append_text_styles', bld)
+    if m:
+        T['text_element_gate'] = unesc(m.group(1))
+    # order of the sections in build (a dropped / reordered call changes this list)
+    # --- transform.rs postprocess: the injection condition (a conjunction of flags)
+    tf = read(srcdir, 'transform.rs')
+    pp = body_after(tf, r'fn postprocess', what='transform.rs postprocess')
+    m = re.search(r'if ([a-z_.& ]+?)\s*\{\s*self\.write_auto_styles\(', pp); need(m, 'postprocess injection condition')
+    conj = [x.strip().split('.')[-1] for x in m.group(1).split('&&')]
+    need(all(re.fullmatch(r'[a-z_]+', x) for x in conj) and '||' not in m.group(1), 'postprocess injection condition is a conjunction')
+    T['inject_condition'] = conj
+    m = re.search(r'events\.partition\(' + STR + r'\)', pp); need(m, 'postprocess root element name')
+    T['root_element'] = unesc(m.group(1))
+    # --- class vocabulary (same regexes as gen() below), for the python oracles
+    col = read(srcdir, 'colours.rs')
+    T['colour_list'] = strs(body_after(col, r'COLOUR_LIST[^=]*=\s*&', open_ch='[', close_ch=']', what='COLOUR_LIST'))
+    T['dark_colours'] = strs(body_after(col, r'DARK_COLOURS[^=]*=\s*&', open_ch='[', close_ch=']', what='DARK_COLOURS'))
+    T['text_rules'] = [(unesc(a), unesc(b)) for a, b in re.findall(r'\(' + STR + r',\s*' + STR + r'\)', ts) if b.startswith('text.')]
+    m = re.search(r'let text_sizes = vec!\[(.*?)\];', ts, re.S); need(m, 'text_sizes')
+    T['text_sizes'] = [a for a, b in re.findall(r'\(' + STR + r',\s*tb\.font_size(?:\s*\*\s*([0-9.]+))?\)', m.group(1))]
+    m = re.search(r'let text_ol_widths = vec!\[(.*?)\];', ts, re.S); need(m, 'text_ol_widths')
+    T['text_ol_widths'] = [a for a, b in re.findall(r'\(' + STR + r',\s*([0-9.]+)\)', m.group(1))]
+    T['stroke_widths'] = [a for a, b in re.findall(r'\(' + STR + r',\s*base\s*\*\s*([0-9.]+)\)', sw)]
+    m = re.search(r'let flow_style = vec!\[(.*?)\];', dsh, re.S); need(m, 'flow_style')
+    T['flow_styles'] = [a for a, b in re.findall(r'\(' + STR + r',\s*' + STR + r'\)', m.group(1))]
+    T['dash_styles'] = [unesc(a) for a, b in re.findall(r'tb\.has_class\(' + STR + r'\)\s*\{\s*tb\.add_style\(' + STR + r'\);', dsh)]
+    T['pattern_table'] = [(a, b, int(d) if d else None) for a, b, c, d in re.findall(r'\(' + STR + r',\s*PatternType::(\w+),\s*(None|Some\((-?\d+)\))\)', ptn)]
+    m = re.search(r'filter\(\|&n\| n <= (\d+)\)', ptn); need(m, 'pattern spacing limit')
+    T['pattern_max_spacing'] = int(m.group(1))
+    tn = body_after(th, r'impl FromStr for ThemeType', what='ThemeType::from_str')
+    T['theme_names'] = [a for a in strs(tn) if re.fullmatch(r'[a-z]+', a)]
+    T['build_sequence'] = re.findall(r'\b(append_early_styles|append_common_styles|append_colour_styles|append_stroke_width_styles|append_text_styles|append_arrow_styles|append_dash_styles|append_pattern_styles|append_late_styles|build_fn)\(', bld)
+    return T
+
+def theme_tables_coq(T, emit):
+    emit('(* ---- themes.rs templates: Lit = literal text, Hole = format argument *)')
+    emit('Inductive seg := Lit (s : string) | Hole (s : string).')
+    emit('Definition common_all_elements : string * string := (%s, %s).' % (cq(T['all_elements'][0]), cq(T['all_elements'][1])))
+    emit('Definition common_templates : list (list seg) := [' + ';\n  '.join(cseg(x) for x in T['common']) + '].')
+    emit('(* per colour loop: class template, [(colour excluded by a guard, rule template)], (text_fill dark/light, text_stroke dark/light) *)')
+    emit('Definition colour_blocks : list (list seg * list (option string * list seg) * ((string * string) * (string * string))) := [' + ';\n  '.join(
+        '(%s, [%s], ((%s, %s), (%s, %s)))' % (cseg(b['class']), '; '.join('(%s, %s)' % (('Some ' + cq(g)) if g is not None else 'None', cseg(st)) for g, st in b['styles']),
+                                              cq(b['text_fill'][0]), cq(b['text_fill'][1]), cq(b['text_stroke'][0]), cq(b['text_stroke'][1]))
+        for b in T['colour_blocks']) + '].')
+    emit('Definition stroke_width_template : list seg := %s.' % cseg(T['stroke_width_tmpl']))
+    emit('Definition text_gate_element : string := %s.' % cq(T['text_gate']))
+    emit('Definition text_build_gate_element : string := %s.' % cq(T['text_element_gate']))
+    emit('Definition text_size_template : list seg := %s.' % cseg(T['text_size_tmpl']))
+    emit('Definition text_ol_template : list seg := %s.' % cseg(T['text_ol_tmpl']))
+    emit('Definition arrow_rules : list (string * string) := [' + '; '.join('(%s, %s)' % (cq(a), cq(b)) for a, b in T['arrows']) + '].')
+    emit('Definition arrow_extra_style : string := %s.' % cq(T['arrow_extra_style']))
+    emit('Definition arrow_def : string := %s.' % cq(T['arrow_def']))
+    emit('Definition flow_template : list seg := %s.' % cseg(T['flow_tmpl']))
+    emit('Definition flow_keyframes : string := %s.' % cq(T['flow_keyframes']))
+    emit('Definition pattern_rotate_template : list seg := %s.' % cseg(T['pattern_rotate_tmpl']))
+    emit('Definition pattern_id_strip : string := %s.' % cq(T['pattern_id_strip']))
+    emit('Definition pattern_style_template : list seg := %s.' % cseg(T['pattern_style_tmpl']))
+    emit('Definition pattern_parts : list (list string * list seg) := [' + ';\n  '.join('(%s, %s)' % (cql(a), cseg(b)) for a, b in T['pattern_parts']) + '].')
+    emit('Definition pattern_def_template : list seg := %s.' % cseg(T['pattern_def_tmpl']))
+    emit('Definition pattern_spec_template : list seg := %s.' % cseg(T['pattern_spec_tmpl']))
+    emit('Definition pattern_base_spacing : Z := %d%%Z.' % T['pattern_base_spacing'])
+    emit('Definition shadow_table : list (string * (string * string)) := [' + ';\n  '.join('(%s, (%s, %s))' % (cq(a), cq(b), cq(c)) for a, b, c in T['shadows']) + '].')
+    emit('Definition outer_svg_name : string := %s.' % cq(T['outer_svg']))
+    emit('Definition outer_svg_local_template : list seg := %s.' % cseg(T['outer_svg_local_tmpl']))
+    emit('Definition background_sentinel : string := %s.' % cq(T['background_sentinel']))
+    emit('Definition background_template : list seg := %s.' % cseg(T['background_tmpl']))
+    emit('Definition nested_open_template : list seg := %s.' % cseg(T['nested_open_tmpl']))
+    emit('Definition nested_close : string := %s.' % cq(T['nested_close']))
+    emit('Definition early_rules : list (string * string) := [' + '; '.join('(%s, %s)' % (cq(a), cq(b)) for a, b in T['early_rules']) + '].')
+    emit('Definition build_sequence : list string := %s.' % cql(T['build_sequence']))
+    emit('(* transform.rs postprocess: write_auto_styles is called iff all of these flags hold *)')
+    emit('Definition inject_condition : list string := %s.' % cql(T['inject_condition']))
+    emit('Definition root_element_name : string := %s.' % cq(T['root_element']))
+
 def gen(srcdir):
     out = []
     def emit(s=''):
@@ -392,6 +618,7 @@ def gen(srcdir):
         for n, f, s, b, w, e in themes) + '].')
     tn = body_after(th, r'impl FromStr for ThemeType', what='ThemeType::from_str')
     emit('Definition theme_names : list string := %s.' % cql([a for a in strs(tn) if re.fullmatch(r'[a-z]+', a)]))
+    theme_tables_coq(theme_tables(srcdir), emit)
     emit()
     # ---- lib.rs defaults
     lib = read(srcdir, 'lib.rs')
